@@ -2,6 +2,8 @@ package engine
 
 import (
 	"fmt"
+	"os"
+	"path/filepath"
 	"go/types"
 	"path"
 	"strconv"
@@ -235,6 +237,18 @@ func registerStrings(p *Program) {
 	})
 	always("internal/abi.NoEscape", func(e *Exec, a []Value) Value { return a[0] })
 	always("(*strings.Builder).copyCheck", func(e *Exec, a []Value) Value { return nil })
+	// M-os: no file or network I/O exists; embedded assets are read from /repo at check time
+	always("github.com/go-openapi/swag.LoadFromFileOrHTTP", func(e *Exec, a []Value) Value {
+		return Tuple{Slice{}, e.mkError("open " + e.fmtVal(a[0], 's') + ": no such file or directory (M-os: no file system)")}
+	})
+	always("(embed.FS).ReadFile", func(e *Exec, a []Value) Value {
+		name := e.cstr(a[1])
+		b, err := os.ReadFile(filepath.Join(e.P.RepoDir, name))
+		if err != nil {
+			return Tuple{Slice{}, e.mkError("embed: " + err.Error())}
+		}
+		return Tuple{e.byteSlice(b), Iface{}}
+	})
 	always("os.Getenv", func(e *Exec, a []Value) Value { return Str{} })
 	always("os.Getwd", func(e *Exec, a []Value) Value { return Tuple{Str{S: e.cwd()}, Iface{}} })
 	always("github.com/go-openapi/spec.MustLoadSwagger20Schema", func(e *Exec, a []Value) Value { return e.lazyMeta("swagger20") })
@@ -292,7 +306,7 @@ func registerStrings(p *Program) {
 // lazyMeta: the built-in meta-schemas are not decoded (1 600 lines of JSON nobody looks at in
 // most properties); a placeholder schema stands for them unless real_meta is set.
 func (e *Exec) lazyMeta(which string) Value {
-	if e.Params["real_meta"] == 1 {
+	if e.Params["real_meta"] == 1 || e.Ext["real_meta"] != nil {
 		name := "Swagger20Schema"
 		if which == "draft04" {
 			name = "JSONSchemaDraft04"
